@@ -467,7 +467,7 @@ def explore(a):
         c0 = A._conf_lists(conf)
         try:
             p = FinishedPdu(conf, params)
-        except ValueError:
+        except (ValueError, TypeError):     # too long for the data field / a TLV of a class the list does not take
             p = None
         if [_x_item_view(t) for t in items] != iv0 or A._conf_lists(conf) != c0 or params.file_store_responses is not items:
             return [[0, 4]]
@@ -489,7 +489,7 @@ def explore(a):
         else:
             p.fault_location = items[0] if items else None
         raised = False
-    except ValueError:
+    except (ValueError, TypeError):         # too long for the data field / a TLV of a class the attribute does not take
         raised = True
     s1 = _x_view(kind, p)
     if [_x_item_view(t) for t in items] != iv0 or len(lst) != len(iv0):
